@@ -286,4 +286,56 @@ theorem osc8_step {t : Term.T} {e : Emu} {rows cols : Nat} (s2 : Sim2 t e rows c
       revert h
       split <;> simp_all
 
+/-! ### round 3: RIS (F106e repaired) -/
+
+theorem esc_99 (e : Emu) : esc Fixes.current e [99] = .ok (ris e) := rfl
+
+/-- After RIS the emulator is related to the reference's power-on state of the same size — from EVERY good state (any
+    margins, pen, saved cursors, modes, screen selector before). -/
+theorem ris_sim2 {e : Emu} {rows cols : Nat} (h : EmuInv e rows cols) (d : Dim rows cols) :
+    Sim2 (Term.T.init rows cols) (ris e) rows cols := by
+  have hi := ris_inv h d
+  have hh := height_eq h
+  have hw := width_eq h d.r1
+  have hf : Fixes.current.f106e = true := rfl
+  have hr1 := d.r1
+  have hc1 := d.c1
+  unfold ris risF at hi ⊢
+  simp only [hh, hw, Int.toNat_natCast, hf, if_true] at hi ⊢
+  have hs : Sim (Term.T.init rows cols) _ rows cols :=
+    { inv := hi
+      dim := d
+      vm := ⟨rfl, rfl, rfl, rfl, rfl⟩
+      trows := rfl, tcols := rfl, onAlt := rfl
+      row := rfl
+      col := by
+        show ((0 : Nat) : Int) = if (0 : Int) ≥ (cols : Int) then (cols : Int) - 1 else 0
+        split <;> omega
+      pw := by
+        show false = decide ((0 : Int) ≥ (cols : Int))
+        symm; rw [decide_eq_false_iff_not]; omega
+      pen := absStyle_default.symm
+      link := rfl
+      top := rfl
+      bottom := by
+        show ((rows - 1 : Nat) : Int) = (rows : Int) - 1
+        omega
+      grid := blankGrid_accepts rows cols }
+  exact
+    { sim := hs
+      lc := lastColOk_of_false rfl
+      savedP := ⟨rfl, rfl, rfl, rfl, absStyle_default, rfl⟩
+      savedA := ⟨rfl, rfl, rfl, rfl, absStyle_default, rfl⟩
+      smcup := rfl
+      prim := by intro ha; cases ha }
+
+/-- **RIS** through the dispatcher. -/
+theorem ris_step {t : Term.T} {e : Emu} {rows cols : Nat} (s2 : Sim2 t e rows cols) :
+    ∃ r, emuStep e (.esc [99]) = .ok r ∧ Refines2 (Term.step t .ris) r.1 rows cols := by
+  refine ⟨_, emuStep_esc_ok (esc_99 e), ?_⟩
+  show ∃ t' ∈ [Term.T.init t.rows t.cols], Sim2 t' (ris e) rows cols
+  refine ⟨_, List.mem_singleton.mpr rfl, ?_⟩
+  rw [s2.sim.trows, s2.sim.tcols]
+  exact ris_sim2 s2.sim.inv s2.sim.dim
+
 end VaxisModel.Lemmas.EmuRefine
